@@ -295,6 +295,26 @@ pub fn exercise<T: Full>(name: &str, rng: &mut StdRng, sink: &mut crate::gen::Si
                 sink.put(json!({"fam":"typed","name":"alt","ty":name,"val":val,"bytes":bytes(&enc),"alt":bytes(&alt),"obs":dec}));
             }
         }
+        if want == "cross" && !enc.is_empty() {
+            // a strict prefix of the encoding decoded as the same type: the end-of-input class, nothing else
+            let cuts: Vec<usize> = if enc.len() <= 6 { (0..enc.len()).collect() } else { vec![0, 1, rng.gen_range(0..enc.len()), enc.len() - 1] };
+            for cut in cuts {
+                let dec = crate::ops::guarded(|| decode_report::<T>(&enc[..cut]));
+                sink.put(json!({"fam":"typed","name":"prefix","ty":name,"bytes":bytes(&enc),"cut":cut,"obs":dec}));
+            }
+        }
+        if want == "cross" {
+            // the encoding of this value decoded as every other registered type: an error, or - where it is accepted - no other value than
+            // the one the bytes denote (judged by TLC); refusals are sampled, acceptances and anything else are all recorded
+            for (j, other) in NAMES.iter().enumerate() {
+                if *other == name { continue }
+                let dec = crate::ops::guarded(|| decode_named(other, &enc).unwrap());
+                sink.monitored += 1;
+                if dec["p"] != "run" || dec["dec_ok"] == true || (j + enc.len()) % 29 == 0 {
+                    sink.put(json!({"fam":"typed","name":"cross","ty":other,"from":name,"bytes":bytes(&enc),"obs":dec}));
+                }
+            }
+        }
         if want == "mut" || want == "all" {
             // every mutant is monitored here (no panic, position bound, allocation bound); violating events and a sample go to TLC
             for (i, m) in crate::cbgen::typed_mutations(rng, &enc).into_iter().enumerate() {
